@@ -155,10 +155,12 @@ def genericPair (a x : Opd) : Bool :=
   a.q = .undefined && x.q = .undefined &&
   ((isGenericTransform a.dom && x.dom = .time) || (isGenericTransform x.dom && a.dom = .time))
 
-/-- `x.as_constant()` inside `__mul__`/`__truediv__`; `keepUnits` is the `x.units = xunits` of
-    `__mul__` that `__truediv__` does not have -/
+/-- `x.as_constant()` inside `__mul__`/`__truediv__` (inside `try: ... except: pass`); it
+    succeeds when the value is unchanging *and* has no free symbols (`call` substitutes only an
+    `is_constant` argument, anything else ends in `transform`'s ValueError); `keepUnits` is the
+    `x.units = xunits` of `__mul__` that `__truediv__` does not have -/
 def coerceImmittance (x : Opd) (keepUnits : Bool) : Opd :=
-  if isImmittance T x.q && x.unch then
+  if isImmittance T x.q && x.unch && x.const then
     let d := exprmapM T x.q .constant
     { x with dom := d, units := if keepUnits then x.units else defaultUnits T d x.q }
   else x
@@ -280,23 +282,37 @@ def unitsClash (c : Cfg) (a x : Opd) : Bool :=
   c.check && canon T a.units ≠ canon T x.units && !a.zero && !x.zero
     && !(c.loose && (isUndefinedFlag T a.q || isUndefinedFlag T x.q))
 
-/-- the rest of `__compat_add__`: the class chosen (as `(domain, quantity)` of the class), or
-    the error -/
+/-- a sequence of `if guard: return value` statements followed by a final statement -/
+def firstMatch {α : Type} : List (Bool × α) → α → α
+  | [], d => d
+  | (g, v) :: rest, d => if g then v else firstMatch rest d
+
+/-- the `if ...: return cls, ...` statements of `__compat_add__` after the units test, in source
+    order; the value is the class chosen (as `(domain, quantity)` of the class) or the error -/
+def compatRulesHead (c : Cfg) (a x : Opd) : List (Bool × Except Err (Domain × Quantity)) :=
+  [ (isConst T x.dom && x.q = .undefined && (c.loose || x.zero), .ok (a.dom, a.q)),
+    (isConst T x.dom && x.q = .undefined && isTransfer T a.q, .ok (a.dom, a.q)),
+    (isConst T a.dom && a.q = .undefined, .ok (x.dom, x.q)),
+    (a.q = x.q && isConst T a.dom, .ok (x.dom, x.q)),
+    (a.q = x.q && isConst T x.dom, .ok (a.dom, a.q)),
+    (a.q = x.q && a.dom = x.dom, .ok (a.dom, a.q)),
+    -- "For phasor comparisons..."
+    (a.dom = .phasorRatio && x.dom = .angularFourier, .ok (a.dom, a.q)),
+    (a.dom = .angularFourier && x.dom = .phasorRatio, .ok (x.dom, x.q)),
+    (a.dom = .angularFrequencyResponse && x.dom = .angularFourier, .ok (a.dom, a.q)),
+    (a.dom = .angularFourier && x.dom = .angularFrequencyResponse, .ok (x.dom, x.q)),
+    (a.dom != x.dom, .error .domains) ]
+
+/-- ... the statements after the domain test -/
+def compatRulesTail (c : Cfg) (a x : Opd) : List (Bool × Except Err (Domain × Quantity)) :=
+  [ (a.q = .undefined && (c.loose || isTransfer T x.q), .ok (x.dom, x.q)),
+    (x.q = .undefined && (c.loose || isTransfer T a.q), .ok (a.dom, a.q)) ]
+
+def compatRules (c : Cfg) (a x : Opd) : List (Bool × Except Err (Domain × Quantity)) :=
+  compatRulesHead T c a x ++ compatRulesTail T c a x
+
 def compatClass (c : Cfg) (a x : Opd) : Except Err (Domain × Quantity) :=
-  if isConst T x.dom && x.q = .undefined && (c.loose || x.zero) then .ok (a.dom, a.q)
-  else if isConst T x.dom && x.q = .undefined && isTransfer T a.q then .ok (a.dom, a.q)
-  else if isConst T a.dom && a.q = .undefined then .ok (x.dom, x.q)
-  else if a.q = x.q && isConst T a.dom then .ok (x.dom, x.q)
-  else if a.q = x.q && isConst T x.dom then .ok (a.dom, a.q)
-  else if a.q = x.q && a.dom = x.dom then .ok (a.dom, a.q)
-  else if a.dom = .phasorRatio && x.dom = .angularFourier then .ok (a.dom, a.q)
-  else if a.dom = .angularFourier && x.dom = .phasorRatio then .ok (x.dom, x.q)
-  else if a.dom = .angularFrequencyResponse && x.dom = .angularFourier then .ok (a.dom, a.q)
-  else if a.dom = .angularFourier && x.dom = .angularFrequencyResponse then .ok (x.dom, x.q)
-  else if a.dom ≠ x.dom then .error .domains
-  else if a.q = .undefined && (c.loose || isTransfer T x.q) then .ok (x.dom, x.q)
-  else if x.q = .undefined && (c.loose || isTransfer T a.q) then .ok (a.dom, a.q)
-  else .error .quantities
+  firstMatch (compatRules T c a x) (.error .quantities)
 
 def compatAdd (c : Cfg) (a x : Opd) : Except Err (Domain × Quantity) :=
   if unitsClash T c a x then .error .units else compatClass T c a x
